@@ -12,7 +12,7 @@ use std::path::{Path, PathBuf};
 use std::process::{Child, ChildStdin, ChildStdout, Command, Stdio};
 use std::sync::{Arc, Condvar, Mutex};
 use std::time::{Duration, Instant};
-use surrealkv::{Options, Tree, TreeBuilder};
+use surrealkv::{Options, Tree, TreeBuilder, WalRecoveryMode};
 
 const OPEN_PTS: &[&str] = &["open.locked", "open.manifest_loaded", "open.recovered"];
 const CLOSE_PTS: &[&str] = &["close.wal_closed", "close.wal_cleaned", "close.dirs_synced"];
@@ -39,6 +39,30 @@ pub fn gen(a: &Args) -> i32 {
         for _ in 0..nops {
             let mut x = r.below(4) as usize;
             let owner = (0..4).find(|&i| g[i] != G::None);
+            // now and then, while nobody is live: damage the commit log, try to open (fails after the lock was
+            // taken), repair, and carry on
+            if owner.is_none() && next_v > 1 && r.chance(1, 6) {
+                writeln!(out, "damage").unwrap();
+                for _ in 0..r.range(1, 3) {
+                    let y = r.below(4);
+                    match r.below(4) {
+                        0 => writeln!(out, "spawn {y}").unwrap(),
+                        1 => writeln!(out, "open {y}").unwrap(),
+                        _ => {
+                            let p = *r.pick(OPEN_PTS);
+                            writeln!(out, "open {y} @{p}").unwrap();
+                            if p != "open.recovered" {
+                                // paused while holding the lock: another attempt is refused, then the first one fails
+                                writeln!(out, "open {} ", (y + 1) % 4).unwrap();
+                                writeln!(out, "resume {y}").unwrap();
+                            }
+                        }
+                    }
+                    st.bump("failed_open");
+                }
+                writeln!(out, "repair").unwrap();
+                continue;
+            }
             // while somebody is live, two thirds of the operations are the owner's own
             if let Some(o) = owner {
                 if g[x] == G::None && !r.chance(1, 3) {
@@ -227,11 +251,42 @@ fn diff_dir(a: &BTreeMap<String, Vec<u8>>, b: &BTreeMap<String, Vec<u8>>) -> Opt
 fn mk_opts(dir: &Path, vlog: bool) -> Options {
     let mut o = Options::new();
     o.path = dir.to_path_buf();
+    // commits stay in the commit log (no flush on close), and a damaged log fails the open
+    o.flush_on_close = false;
+    o.wal_recovery_mode = WalRecoveryMode::AbsoluteConsistency;
     if vlog {
         o.enable_vlog = true;
         o.vlog_value_threshold = 0;
     }
     o
+}
+
+/// waits until nobody holds the directory lock (a failed open releases it as soon as its background tasks have gone)
+fn wait_lock_free(dir: &Path) -> bool {
+    use fs2::FileExt;
+    let p = dir.join("LOCK");
+    let t0 = Instant::now();
+    loop {
+        match std::fs::OpenOptions::new().read(true).write(true).open(&p) {
+            Err(_) => return true, // no LOCK file at all
+            Ok(f) => {
+                if f.try_lock_exclusive().is_ok() {
+                    let _ = f.unlock();
+                    return true;
+                }
+            }
+        }
+        if t0.elapsed() > Duration::from_secs(3) {
+            return false;
+        }
+        std::thread::sleep(Duration::from_millis(2));
+    }
+}
+
+fn first_wal(dir: &Path) -> Option<PathBuf> {
+    let mut v: Vec<PathBuf> = std::fs::read_dir(dir.join("wal")).ok()?.flatten().map(|e| e.path()).filter(|p| p.extension().map(|x| x == "wal").unwrap_or(false) && std::fs::metadata(p).map(|m| m.len() > 16).unwrap_or(false)).collect();
+    v.sort();
+    v.into_iter().next()
 }
 
 fn is_locked(e: &surrealkv::Error) -> bool {
@@ -260,6 +315,7 @@ struct Opener {
 struct World {
     dir: tempfile::TempDir,
     vlog: bool,
+    damaged: Option<(PathBuf, Vec<u8>)>, // commit-log segment with its original bytes
     ops: Vec<Opener>,
 }
 
@@ -414,12 +470,32 @@ pub fn exec(a: &Args) -> i32 {
                     w = Some(World {
                         dir: tempfile::tempdir().expect("tempdir"),
                         vlog,
+                        damaged: None,
                         ops: (0..8).map(|_| Opener { tree: None, thread: None, child: None, held: false, seen: 0, before: None, grave: vec![] }).collect(),
                     });
                     "-".into()
                 }
                 Some(op) => {
                     let Some(wd) = w.as_mut() else { return "bad-op".into() };
+                    if op == "damage" {
+                        if wd.damaged.is_some() || wd.ops.iter().any(|o| o.tree.is_some() || o.thread.is_some() || o.child.is_some()) {
+                            return "r=skip".into();
+                        }
+                        let Some(p) = first_wal(wd.dir.path()) else { return "r=skip".into() };
+                        let orig = std::fs::read(&p).expect("read wal");
+                        let mut bad = orig.clone();
+                        bad[10] ^= 0x40;
+                        std::fs::write(&p, &bad).expect("write wal");
+                        wd.damaged = Some((p, orig));
+                        return "r=ok".into();
+                    }
+                    if op == "repair" {
+                        if let Some((p, orig)) = wd.damaged.take() {
+                            std::fs::write(&p, &orig).expect("restore wal");
+                        }
+                        return "r=ok".into();
+                    }
+                    let damaged = wd.damaged.is_some();
                     let Some(x) = ws.get(1).and_then(|s| s.parse::<usize>().ok()).filter(|x| *x < 8) else { return "bad-op".into() };
                     let path = wd.dir.path().to_path_buf();
                     let vlog = wd.vlog;
@@ -446,6 +522,10 @@ pub fn exec(a: &Args) -> i32 {
                                         None => "r=locked pure=1".into(),
                                         Some(f) => format!("r=locked pure=0 touched={f}"),
                                     }
+                                }
+                                Some(Ret::Opened(Err(e))) if damaged => {
+                                    let _ = e;
+                                    format!("r=failed free={}", wait_lock_free(&path) as u8)
                                 }
                                 Some(Ret::Opened(Err(e))) => format!("r=err:{e}"),
                                 Some(Ret::Closed(..)) => "r=err:internal".into(),
@@ -494,6 +574,7 @@ pub fn exec(a: &Args) -> i32 {
                                     o.grave.push(t);
                                     format!("r=err:{e}")
                                 }
+                                Some(Ret::Opened(Err(_))) if damaged => format!("r=failed free={}", wait_lock_free(&path) as u8),
                                 Some(Ret::Opened(Err(e))) => format!("r=err:{e}"),
                             }
                         }
@@ -538,7 +619,11 @@ pub fn exec(a: &Args) -> i32 {
                                 other => {
                                     let _ = c.0.kill();
                                     let _ = c.0.wait();
-                                    format!("r=err:{other}")
+                                    if damaged {
+                                        format!("r=failed free={}", wait_lock_free(&path) as u8)
+                                    } else {
+                                        format!("r=err:{other}")
+                                    }
                                 }
                             }
                         }
